@@ -6,7 +6,8 @@ import sys
 
 from . import common
 from .common import Check
-from .c17_impl import (CODE_ERR, ERR_CODE, HarnessBroken, Impl, Unsupported, cps, show_decl, show_outcome)
+from .c17_impl import (CODE_ERR, ERR_CODE, HOUR, MINUTE, HarnessBroken, Impl, Unsupported, cps, show_decl, show_outcome)
+from .c17_session import Session, minimise, outcome_key as session_outcome_key
 
 RULE = ("every single-character delete / duplicate / swap / insert corruption of 14 seed programs "
         "(insertions from the token alphabet), seeded random strings over the token alphabet plus "
@@ -17,6 +18,12 @@ RULE = ("every single-character delete / duplicate / swap / insert corruption of
         "string literals in every position a literal can stand in with a backslash before every ASCII "
         "character, escape heads (hex/unicode/named/octal) with complete, truncated and ill-formed tails, "
         "every ASCII character as a directive introducer, and seeded random literals over all of ASCII; "
+        "SESSIONS in one process against live Datastore objects (the long-used first one, a second memory one, a "
+        "sqlite one): every ordered pair of the bucket-naming query shapes asked while the bucket is absent / created "
+        "/ deleted / re-created / deleted, the same shapes against two datastores alive at once, seeded random walks "
+        "over create / delete / bucket query / failing query, every 37th earlier text asked a second time, and inputs "
+        "of 10 001 elements (list, arguments, statements, characters, dict entries, events in a bucket); what a wrong "
+        "argument type / count is comes from the frozen registry corpus/c17_registry.json, not from the tree; "
         "non-trivial = distinct text that reaches a quote/bracket scanner or a call (contains one of "
         "( [ { \" ')")
 
@@ -281,6 +288,110 @@ def random_literal_text(rng):
     return text, want
 
 
+
+# -- sessions -------------------------------------------------------------------------------------
+# Query shapes that name a bucket (the statement's "unknown bucket" clause): each must be a value while every
+# bucket it names exists in the datastore it runs against and a function error otherwise - at every point of a
+# history, whatever was asked before.  (shape, number of bucket names it takes)
+BUCKET_SHAPES = [
+    ('RETURN = query_bucket("%s");', 1),
+    ('RETURN = query_bucket_eventcount("%s");', 1),
+    ('b = "%s"; RETURN = limit_events(query_bucket(b), 1);', 1),
+    ('RETURN = sort_by_duration(query_bucket(find_bucket("%s")));', 1),
+    ('RETURN = find_bucket("%s");', 1),
+    ('RETURN = [query_bucket_eventcount("%s"), echo(query_bucket("%s"))];', 2),
+]
+SESSION_EVENTS = [[0, MINUTE, {"app": "x", "title": "y"}], [HOUR, 2 * MINUTE, {"app": "z", "title": "w"}]]
+SESSION_DS = [["datastore", "A", "memory"], ["datastore", "B", "sqlite"]]
+
+
+def bq(ds, shape, *bids):
+    text, n = shape
+    names = [bids[i % len(bids)] for i in range(n)]
+    return ["query", ds, text % tuple(names), {"names": names}]
+
+
+def session_corpus():
+    """(stream, ops): short sessions, each on bucket ids of its own, so that a replay is the session alone."""
+    k = 0
+    for s1 in BUCKET_SHAPES:
+        for s2 in BUCKET_SHAPES:
+            k += 1
+            ds = ["main", "A", "B"][k % 3]
+            b = "s%d-x" % k
+            q1, q2 = bq(ds, s1, b), bq(ds, s2, b)
+            yield "session-history", SESSION_DS + [
+                q1, q2, ["create", ds, b, SESSION_EVENTS], q1, q2, q1, ["delete", ds, b], q1, q2,
+                ["create", ds, b, SESSION_EVENTS[:1]], q2, q1, ["delete", ds, b], q2, q1]
+    for s1 in BUCKET_SHAPES:          # two datastores alive at once: what one has, the other has not
+        for d1, d2 in (("main", "A"), ("A", "B"), ("B", "main")):
+            k += 1
+            b = "t%d-x" % k
+            qa, qb = bq(d1, s1, b), bq(d2, s1, b)
+            yield "session-two-datastores", SESSION_DS + [
+                ["create", d1, b, SESSION_EVENTS], qa, qb, qa, ["create", d2, b, SESSION_EVENTS[1:]], ["delete", d1, b],
+                qa, qb, ["delete", d2, b], qb, qa]
+    # a bucket named by two shapes in one text while only one of two buckets exists
+    for s1 in BUCKET_SHAPES:
+        k += 1
+        b, c = "u%d-x" % k, "u%d-y" % k
+        two = BUCKET_SHAPES[-1]
+        yield "session-history", SESSION_DS + [
+            ["create", "A", b, SESSION_EVENTS], bq("A", s1, b), bq("A", two, b, c), ["create", "A", c, []], bq("A", two, b, c),
+            ["delete", "A", b], bq("A", two, b, c), bq("A", two, c, b), bq("A", s1, b), bq("A", s1, c), ["delete", "A", c], bq("A", s1, c)]
+
+
+def random_session(rng, noise, tag):
+    """A seeded random walk: create / delete / bucket query (any shape, any datastore) / a query from the other
+    streams (mostly failing ones) in between."""
+    ids = ["%s-one" % tag, "%s-two" % tag, "%s-3" % tag]
+    have = {"main": set(), "A": set(), "B": set()}
+    ops = list(SESSION_DS)
+    for _ in range(rng.randrange(8, 28)):
+        ds = rng.choice(["main", "A", "A", "B"])
+        b = rng.choice(ids)
+        r = rng.random()
+        if r < 0.2:
+            if b in have[ds]:
+                ops.append(["delete", ds, b])
+                have[ds].discard(b)
+            else:
+                ops.append(["create", ds, b, rng.choice([SESSION_EVENTS, SESSION_EVENTS[:1], []])])
+                have[ds].add(b)
+        elif r < 0.8:
+            ops.append(bq(ds, rng.choice(BUCKET_SHAPES), b, rng.choice(ids)))
+        else:
+            text, want = rng.choice(noise)
+            ops.append(["query", ds, text, {"class": want} if want else {}])
+    for ds in have:                    # leave every datastore as it was found
+        for b in sorted(have[ds]):
+            ops.append(["delete", ds, b])
+    return ops
+
+
+BIG = 10001
+
+
+def large_stream():
+    """(ops, through the model?): inputs larger than any plausible chunk / cache / batch constant; all well
+    formed -> a value.  The extracted model scans a bracketed text of n entries in time ~ n^2 (20 s at
+    n = 10 001): those go to the statement oracle alone, and a 1 200-entry copy goes through the model."""
+    v = {"class": "value"}
+    for n, model in ((BIG, False), (1200, True)):
+        ones = ", ".join(["1"] * n)
+        yield [["query", "main", "RETURN = [" + ones + "];", v]], model
+        yield [["query", "main", "RETURN = echo(" + ones + ");", v]], model
+        yield [["query", "main", "RETURN = limit_events([" + ones + "], %d);" % (n - 1), v]], model
+        yield [["query", "main", "RETURN = {" + ", ".join('"k%d": %d' % (i, i) for i in range(n)) + "};", v]], model
+    yield [["query", "main", "x = 0;" + "x = [x];" * 40 + "y = 1;" * BIG + "RETURN = [x, y];", v]], True
+    yield [["query", "main", 'RETURN = "' + "ab,(" * (BIG // 4 + 1) + '";', v]], True
+    yield [["query", "main", "RETURN = zz" + "9" * BIG + ";", {"class": "InterpretError"}]], True
+    # a bucket of 10 001 events (sqlite: the memory storage needs 23 s to take them)
+    events = [[i * 1000000, 500000, {"app": "a%d" % (i % 7)}] for i in range(BIG)]
+    yield SESSION_DS + [["create", "B", "big", events], bq("B", BUCKET_SHAPES[1], "big"), bq("B", BUCKET_SHAPES[0], "big"),
+                        bq("B", BUCKET_SHAPES[2], "big"), ["delete", "B", "big"], bq("B", BUCKET_SHAPES[1], "big")], True
+
+
 FAMILY = ("ParseError", "InterpretError", "FunctionError")
 
 
@@ -340,54 +451,116 @@ def main(argv=None):
     wire, expect = [], []
     seen = set()
     lenient = {}
-    for stream, text, want in cases:
-        if text in seen:
-            continue
-        seen.add(text)
-        r = impl.run(text)
+    first_outcome = {}
+    for d in impl.registry_diffs:       # the tree's interface is not the frozen one: a broken tie by itself
+        ck.disagreement("registry", d, {"registry": d, "snapshot": impl.snapshot_path,
+                                        "see": "tools/c17_registry.py (when the interface legitimately changes)"})
+
+    def process(stream, text, want, r, buckets=None, session=None):
+        """One answered query: the statement as an oracle on the implementation's own outcome, the
+        by-construction expectation, and the case for the model (pure: text + bucket ids existing now)."""
         ck.count("stream:" + stream)
         kind, payload = r["outcome"]
         outcome_key = "value" if kind == "value" else (payload if kind == "error" else kind)
         ck.count("outcome:" + str(outcome_key))
-        ck.note_case(text, nontrivial=any(c in text for c in "([{\"'"))
+        ck.note_case(text if session is None else [text, len(session)], nontrivial=any(c in text for c in "([{\"'"))
+        short = text if len(text) < 300 else text[:140] + f" ...({len(text)} characters)... " + text[-60:]
+        replay = {"query": text, "observed": outcome_key, "stream": stream,
+                  "call": "aw_query.query2.query('q-name', query, 2020-01-01Z, 2020-01-02Z, Datastore(MemoryStorage))"}
+        if session is not None:
+            replay.update({"session": session, "buckets_existing": buckets,
+                           "call": "the ops of `session` in order in ONE process, see harness/c17_session.py",
+                           "rerun": "save this file's replay.session as {\"ops\": [...]} and run "
+                                    "/venv/bin/python -m harness.c17_session <file> (exit 1 = the last query misses its expectation)"})
         bad = oracle(impl, r)
+        failed = None
         if bad:
-            ck.failing_input("C17:" + bad[0], f"{text!r}: {bad[1]}",
-                             {"query": text, "observed": outcome_key, "stream": stream,
-                              "call": "aw_query.query2.query('q-name', query, 2020-01-01Z, 2020-01-02Z, Datastore(MemoryStorage))"})
+            failed = ("C17:" + bad[0], f"{short!r}: {bad[1]}")
         elif want is not None and outcome_key != want:
-            ck.failing_input("C17:class:" + stream, f"{text!r}: statement says {want}, implementation gives {outcome_key}",
-                             {"query": text, "expected": want, "observed": outcome_key, "stream": stream})
+            replay["expected"] = want
+            failed = ("C17:class:" + stream, f"{short!r}: statement says {want}, implementation gives {outcome_key}"
+                      + (f" (query {sum(1 for o in session if o[0] == 'query')} of a session; bucket ids existing: {buckets})"
+                         if session is not None else ""))
+        if failed:
+            if session is not None and not minimised and not ck.violations:
+                minimised.append(1)      # once per run: drop the ops the failure does not need (fresh processes)
+                small, confirmed = minimise(session)
+                replay["session"], replay["session_reproduces_in_a_fresh_process"] = small, confirmed
+            ck.failing_input(failed[0], failed[1], replay)
         if kind == "value" and stream.startswith("corrupt") and len(lenient.setdefault(stream, [])) < 4:
             lenient[stream].append(text)
         if stream.startswith("corrupt") and kind == "error" and len(text) % 7 == 0:
             ck.sample({"query": text, "impl": outcome_key})
         try:
-            case, log, wantw = impl.model_case(text, r)
+            case, log, wantw = impl.model_case(text, r, buckets)
         except Unsupported as e:
             ck.count("outside-model:" + str(e)[:40])
-            continue
+            return outcome_key
         except HarnessBroken as e:          # the recorded calls contradict the modelled plumbing
-            ck.disagreement("query", f"{text!r}: {e}", {"query": text, "stream": stream, "harness": str(e)})
-            continue
+            ck.disagreement("query", f"{short!r}: {e}", dict(replay, harness=str(e)))
+            return outcome_key
         wire.append(case)
-        expect.append((stream, text, log, wantw))
+        expect.append((stream, short, log, wantw, replay))
+        return outcome_key
+
+    minimised = []
+    for stream, text, want in cases:
+        if text in seen:
+            continue
+        seen.add(text)
+        first_outcome[text] = (process(stream, text, want, impl.run(text)), want)
+
+    # sessions: the same process, the same Datastore objects, histories between the queries
+    def run_session(stream, ops, through_model=True):
+        sess = Session(impl)
+        for i, op in enumerate(ops):
+            out = sess.apply(op)
+            if out is None:
+                ck.count("session-op:" + op[0])
+                continue
+            r, ds, have, want = out
+            if want is not None and want[0] != "class":
+                raise HarnessBroken("C17 sessions carry outcome classes only")
+            if through_model:
+                process(stream, op[2], want[1] if want else None, r, have, ops[:i + 1])
+            else:                       # too long for the extracted model's quadratic text handling: oracle only
+                n0 = len(wire)
+                process(stream, op[2], want[1] if want else None, r, have, ops[:i + 1])
+                del wire[n0:], expect[n0:]
+                ck.count("outside-model:longer than the driver is asked to scan")
+
+    noise = [(t, w) for st, t, w in cases if st.startswith("class-") or st == "seed"]
+    for stream, ops in session_corpus():
+        run_session(stream, ops)
+    for i in range(30 if quick else 1500):
+        run_session("session-random", random_session(ck.rng, noise, "r%d" % i))
+    texts = sorted(first_outcome)
+    for text in texts[::37]:            # asked a second time, much later: the first answer's class again
+        out, want = first_outcome[text]
+        run_session("session-asked-again", [["query", "main", text, {"class": want or out} if out in FAMILY + ("value",) else {}]])
+    for ops, through_model in large_stream():
+        run_session("large", ops, through_model)
+    if impl.buckets_of(impl.ds) != impl.buckets or sorted(impl.ds.buckets()) != impl.buckets:
+        raise HarnessBroken("a session did not leave the first datastore as it found it")
 
     if have_driver and wire:
         model = common.run_driver("C17", wire)
-        for (stream, text, log, wantw), mo in zip(expect, model):
+        for (stream, text, log, wantw, replay), mo in zip(expect, model):
             if mo == [-999] or mo == [-998] or len(mo) != 3:
-                ck.disagreement("query", f"driver rejected the case for {text!r}", {"query": text, "model": mo})
+                ck.disagreement("query", f"driver rejected the case for {text!r}", dict(replay, model=mo))
                 continue
             out, mlog, exh = mo
             if out != wantw or mlog != log or exh != 0:
                 what = (f"{text!r}: model {show_outcome(out)} / implementation {show_outcome(wantw)}"
                         if out != wantw else f"{text!r}: built-in body calls differ")
-                ck.disagreement("query", what, {"query": text, "stream": stream, "model_outcome": show_outcome(out),
-                                                 "impl_outcome": show_outcome(wantw), "model_calls": mlog, "impl_calls": log,
-                                                 "script_exhausted": exh})
+                if "session" in replay:
+                    what += f" (in a session; bucket ids existing: {replay['buckets_existing']})"
+                ck.disagreement("query", what, dict(replay, model_outcome=show_outcome(out), impl_outcome=show_outcome(wantw),
+                                                    model_calls=mlog, impl_calls=log, script_exhausted=exh))
 
     ck.coverage["lenient_acceptance_examples"] = lenient
+    ck.coverage["registry_specification"] = {"snapshot": impl.snapshot_path, "differences_from_the_tree": impl.registry_diffs,
+                                             "live_only_functions_taken_from_the_tree": impl.live_only}
     ck.coverage["registry"] = {n: {"kinds": k, "body": b, "declared": [show_decl(d) for d in impl.decl[n]]}
                                for n, k, b in impl.table}
     # declared types that no expectation is derived from (parameters with a default: the decorator's
@@ -411,6 +584,11 @@ def main(argv=None):
         "float without a default are the type-checked parameters of the model and of the wrong-type stream; any "
         "other declared class without a default is demanded by the wrong-type stream only (outside the model); a "
         "parameter with a default is not considered checked (coverage: declared_not_checked)",
+        "the built-ins' interface (parameters, declared classes, defaults) is the frozen registry "
+        "corpus/c17_registry.json (tools/c17_registry.py), not the signatures of the tree under test; a built-in "
+        "that exists only in the tree (the harness's echo) is read off the tree",
+        "sessions: which buckets exist is tracked by the harness from its own create/delete ops; the model sees one "
+        "query and that list, nothing of the history; the 10 001-element texts go to the statement oracle only",
     ]
     return ck.finish(RULE)
 
